@@ -25,10 +25,10 @@ RULE = ('cases = (typed grammar TEXT, start rule, input): grammars of 2-6 rules 
         'leaf rules, untyped pass-through rules, bodies with and without named elements, typed rules called '
         'directly, in optionals, closures, joins/gathers, groups, nested closures (lists of lists), under '
         'overrides, inside untyped rules returning dicts, guarded direct recursion, plus random C01-generator '
-        'bodies; slices: fresh (class names unique to the case), conflict (one class declared by two rules with DIFFERENT base chains and different named elements: judged on attributes/values only), collide (class names from a 5-name pool shared '
+        'bodies; in half of the grammars up to two untyped rules get parameters that name no type (`r[1]`, `r[7, Foo]`, `r[k=1]`: the plain AST is expected at that place); slices: fresh (class names unique to the case), conflict (one class declared by two rules with DIFFERENT base chains and different named elements: judged on attributes/values only), collide (class names from a 5-name pool shared '
         'by all cases of the process, chains redrawn per case), shared (two rules declaring one class), hostile '
         '(element names meeting the node API / AST key renaming); inputs derived from the grammar, ~15% mutated. '
-        'non-trivial = the plain parse ACCEPTED and the expected tree contains at least one typed node, distinct '
+        'for every third grammar the parser GENERATED from the model is run too (before the model, with ModelBuilderSemantics and with the tagging semantics): class names, base chains against the grammar\'s annotation, attributes, structure. non-trivial = the plain parse ACCEPTED and the expected tree contains at least one typed node, distinct '
         'by (grammar text, start, input)')
 ASSUMPTIONS = [
     'the expected typed tree is the value the real parser returns when the only semantic action pairs the value '
@@ -65,7 +65,12 @@ FLOORS = {
               'builtin_expected:list': 1000, 'collide_cases': 220, 'stale_declarations_seen': 330,
               'nodes_without_names': 10000, 'nodes_with_names': 9000, 'max_depth': 3,
               'slice:conflict': 100, 'conflict_attrs_judged:synth': 1100, 'conflict_attrs_judged:module': 1100,
-              'conflict_mro:has-the-other-chain': 300},
+              'conflict_mro:has-the-other-chain': 300,
+              'nontype_param_rules:number-first': 130, 'nontype_param_rules:number-then-word': 130,
+              'nontype_param_rules:keywords-only': 130, 'nontype_param_parses:number-first': 220,
+              'nontype_param_parses:number-then-word': 220, 'nontype_param_parses:keywords-only': 220,
+              'genparser_built': 350, 'genparser_comparisons': 1500, 'genparser_chains_judged': 1900,
+              'params_compared_with_grammar': 4500},
     'thorough': {'accepted': 100000, 'distinct_nontrivial': 90000, 'nodes_expected': 550000,
                  'route_runs:synth': 140000, 'route_runs:module': 140000, 'route_runs:api': 11000,
                  'child_links_checked': 390000, 'child_in:nested-list': 150000, 'child_in:dict': 23000,
@@ -74,7 +79,10 @@ FLOORS = {
                  'chain_len:3': 100000, 'builtin_ok:int': 35000, 'builtin_ok:float': 35000, 'builtin_ok:str': 35000,
                  'builtin_ok:bool': 30000, 'builtin_expected:list': 33000, 'collide_cases': 5500,
                  'stale_declarations_seen': 10000, 'max_depth': 4,
-                 'slice:conflict': 2500, 'conflict_attrs_judged:synth': 27000, 'conflict_attrs_judged:module': 27000},
+                 'slice:conflict': 2500, 'conflict_attrs_judged:synth': 27000, 'conflict_attrs_judged:module': 27000,
+                 'nontype_param_parses:number-first': 5000, 'nontype_param_parses:number-then-word': 5000,
+                 'nontype_param_parses:keywords-only': 5000, 'genparser_comparisons': 35000,
+                 'genparser_chains_judged': 45000},
 }
 PEAK_COUNTERS = ('max_depth', 'max_nodes_in_tree')
 
